@@ -882,3 +882,31 @@ func c02GenBackend(r *rng, thorough bool) []c02BackendIn {
 	}
 	return out
 }
+
+// ---------------------------------------------------------------------------------------------
+// node-level: torn durable states seen while the backend applied a flush of the node
+
+func c02TornNote(t c02TornFlush) string {
+	return fmt.Sprintf("while the backend applied the flush that became batch %d it went through a durable state (after its commit %d of %d) that holds %d changed keys of the flush and lacks %d (%s): a power loss there leaves batches [0,%d) and a part of batch %d",
+		t.NB, t.Seq, t.Of, t.State.Applied, t.State.Pending, t.State.Ex, t.NB, t.NB)
+}
+
+// c02ReportTorn: every such state is a violation by itself; reopen (may be nil) additionally opens a node on the
+// image and checks it like a crash prefix
+func c02ReportTorn(rec *c02Rec, viol c02Viol, reopen func(t c02TornFlush, vb c02Batch, vv c02Viol)) {
+	seen := map[int]bool{}
+	for _, t := range rec.torn {
+		if seen[t.NB] {
+			continue // one image per flush
+		}
+		seen[t.NB] = true
+		viol("torn-flush", c02TornNote(t), t.NB)
+		if reopen != nil && t.Dump != nil {
+			t := t
+			vb := c02Batch{Kind: "put", Mem: t.Dump, Stor: map[string][]byte{}, Height: t.Height}
+			reopen(t, vb, func(class, note string, k int) {
+				viol("torn-flush-"+class, fmt.Sprintf("a power loss after backend commit %d of %d of the flush that became batch %d: %s", t.Seq, t.Of, t.NB, note), k)
+			})
+		}
+	}
+}
